@@ -1,6 +1,8 @@
 import EpgVerif.Props.C19
+import EpgVerif.Tie.DiffSites
 open EpgVerif.Props.C19
 #print axioms state_unaffected
 #print axioms run_state_unaffected
 #print axioms column_independent
 #print axioms rename_single
+#print axioms EpgVerif.Tie.DiffSites.sites_as_modelled
